@@ -309,11 +309,58 @@ def check_pair(ctx, seed, k):
         ctx.sample({"seed": seed, "base": a[:400], "extension": B[:400]})
 
 
+def own_specified_directive_case(ctx, seed):
+    """A schema may define a directive of its own under the name of a specified one (a legacy @deprecated, a @skip with an
+    extra argument of a custom type).  Extending and sorting must treat it like any other directive of the schema."""
+    rng = random.Random(seed)
+    m = SchemaGen(rng, adversarial=0.0).model()
+    inputs = [n for n, t in m['types'].items() if t['kind'] in ('scalar', 'enum', 'input')] + ['Int', 'String']
+    nm = rng.choice(['skip', 'include', 'deprecated', 'specifiedBy', 'oneOf'])
+    own = f'directive @{nm}(if: Boolean, since: {rng.choice(inputs)}) {"repeatable " if rng.random() < 0.3 else ""}on FIELD | FIELD_DEFINITION | ENUM_VALUE'
+    root = m['roots']['query']
+    a = render_sdl(m) + '\n\n' + own
+    ext = f'extend type {root} {{ zzNew: Int }}'
+    case = {"seed": seed, "kind": "own-specified-directive", "base": a, "extension": ext}
+    try:
+        S = build_schema(a)
+        both = build_schema(a + '\n\n' + ext)
+    except Exception:  # noqa: BLE001
+        ctx.count("own_directive_schema_not_buildable")
+        return
+    ctx.case()
+    ctx.count("own_specified_directive_cases")
+    before = print_schema(S)
+    try:
+        E = extend_schema(S, parse(ext))
+    except Exception as e:  # noqa: BLE001
+        ctx.violation(f"extend-fails:{type(e).__name__}", {"exception": repr(e)[:200], "own_directive": own}, case)
+        return
+    if print_schema(E) != print_schema(both):
+        ctx.violation("extend-differs-from-build:content", {"own_directive": own, "extended": print_schema(E)[-300:], "built": print_schema(both)[-300:]}, case)
+        return
+    try:
+        SS = lexicographic_sort_schema(S)
+    except Exception as e:  # noqa: BLE001
+        ctx.violation(f"sort-crash:{type(e).__name__}", {"exception": repr(e)[:200], "own_directive": own}, case)
+        return
+    if sorted(print_schema(SS).split('\n')) != sorted(print_schema(lexicographic_sort_schema(SS)).split('\n')) or find_schema_changes(S, SS) or find_schema_changes(SS, S):
+        ctx.violation("sort-changes-content", {"own_directive": own, "changes": [str(c.description)[:120] for c in find_schema_changes(S, SS)][:3]}, case)
+        return
+    if print_schema(S) != before:
+        ctx.violation("extend-modifies-original", {"own_directive": own}, case)
+        return
+    ctx.nontrivial((a, 'own-specified-directive'))
+
+
 def run_shard(ctx):
     base = ctx.seed * 3_000_017 + ctx.shard * 1_000_039
     for k in range(ctx.n(5000, 100000)):
         check_pair(ctx, base + k, k)
+    for k in range(ctx.n(600, 10000)):
+        own_specified_directive_case(ctx, base + 5_000_000 + k)
 
 
 def replay(ctx, case):
+    if case.get("kind") == "own-specified-directive":
+        return own_specified_directive_case(ctx, case["seed"])
     check_pair(ctx, case["seed"], 1)
